@@ -13,9 +13,14 @@ REGISTRY = {
             'mem_buildSpans (build_spans returns exactly the specified set: non-specific, enzymatic and semi-specific case incl. the '
             'grouped semi builders with their sort/groupby/next-shorter-parent de-duplication), nodup_buildSpans, value_is_inside, '
             'mem_/sorted_/nodup_digestSpans (partial digestion adds (0,n,0)); domain hypotheses 0<=n, sites in [0,n], min_len>=1 shown '
-            'necessary by decide-proved witnesses; protease regex table theorems (Props/C06Regex). The hand-written model of '
-            'spans.py/digest is tied to /repo by exhaustive correspondence (n<=5 quick, n<=7 thorough) and the implementation is '
-            'compared with the Lean set specification through the driver; sequential-vs-simultaneous is checked by the oracle only',
+            'necessary by decide-proved witnesses; protease regex table theorems (Props/C06Regex); sequential_eq_simultaneous(_text): '
+            'for every text and every list of zero-missed-cleavage, non-semi, complete configs with look-around rules, '
+            'sequential_digest (sites recomputed on each piece, re-basing, min_len at every stage, max_len at the end) returns the '
+            'same span set as the simultaneous digest unless a stage or the union hits the non-specific shortcut (decidable '
+            'hypotheses; the union case is the known finding), and then without duplicates. The hand-written models of '
+            'spans.py/digest/sequential_digest and of the regex subset are tied to /repo by correspondence (build_spans exhaustive '
+            'n<=5 quick, n<=7 thorough; sequential_digest on exact output lists incl. partial/semi/mc>0 configs) and the '
+            'implementation is compared with the Lean set specification through the driver',
     'note': 'trusted: Lean kernel, axioms propext/Classical.choice/Quot.sound, the correspondence harness, regex->sites (outside the '
             'model, compared with an independent reading of each named rule)',
     'technique': 'Lean 4 proof about executable model + differential correspondence',
@@ -64,12 +69,14 @@ def run(chk):
     rng = chk.rng
     from .. import translate_proteases
     prot_table, unmodelled = translate_proteases.translate(chk)
-    chk.lean_build(['PeptVerif.Props.C06', 'PeptVerif.Props.C06Regex'], DRV)
+    chk.lean_build(['PeptVerif.Props.C06', 'PeptVerif.Props.C06Regex', 'PeptVerif.Props.C06Seq'], DRV)
     if tier == 'thorough':
         chk.leanchecker(['PeptVerif.Props.C06', 'PeptVerif.Lemmas.SpansDigest', 'PeptVerif.Lemmas.SpansNodup',
                          'PeptVerif.Lemmas.SpansSemi', 'PeptVerif.Lemmas.SpansEnz', 'PeptVerif.Lemmas.SpansGroup',
                          'PeptVerif.Lemmas.SpansSort', 'PeptVerif.Lemmas.SpansBasic', 'PeptVerif.Lemmas.Spans',
-                         'PeptVerif.Spec.Spans', 'PeptVerif.Model.Spans'])
+                         'PeptVerif.Spec.Spans', 'PeptVerif.Model.Spans',
+                         'PeptVerif.Props.C06Seq', 'PeptVerif.Lemmas.SpansSeqText', 'PeptVerif.Lemmas.SpansSeq',
+                         'PeptVerif.Spec.SeqDigest', 'PeptVerif.Model.SeqDigest'])
     if chk.lean_problems:
         # name the table entries that differ from the hand-typed reference (witness for proteases_match_reference)
         try:
@@ -82,7 +89,8 @@ def run(chk):
     chk.trusted += [
         'regex -> cleavage sites is outside the Lean model: sites computed by the implementation are fed to the model; '
         'named proteases are compared with an independent Python reading of each rule',
-        'modelled: spans.py builders, build_spans, digest at span level; not modelled: _return_digested_sequences (checked as projection by the oracle)',
+        'modelled: spans.py builders, build_spans, digest and sequential_digest at span level (return_type span, unmodified sequences); '
+        'not modelled: _return_digested_sequences (checked as projection by the oracle), modifications on digested annotations (C07)',
     ]
 
     # ---------------------------------------------------------------- (a) build_spans, exhaustive
@@ -220,6 +228,52 @@ def run(chk):
                    lambda c: f'{c[0]}\t{c[1] if c[0] == "sites_named" else pat_wire(c[1])}\t{c[2]}',
                    lambda c: ilist(digestion.get_cleavage_sites(c[2], c[1])),
                    nontrivial_fn=lambda c, im: bool(im))
+
+    # ---------------------------------------------------------------- (e) sequential_digest vs its Lean model (text level)
+    # nothing is excluded: inputs on which a stage or the union hits build_spans' shortcut must agree too
+    seq_rules = [nm for nm in prot_table if nm not in unmodelled] + user_rx
+
+    def rule_wire(r):
+        return pat_wire(prot_table[r]) if r in prot_table else pat_wire(r)
+
+    def gen_cfgs(plain):
+        k = rng.choice([1, 2, 2, 3])
+        cfgs = []
+        for _ in range(k):
+            rs = tuple(rng.sample(seq_rules, rng.choice([1, 1, 1, 2])))
+            if plain:
+                cfgs.append((rs, 0, False, True))
+            else:
+                cfgs.append((rs, rng.randint(0, 2), rng.random() < 0.3, rng.random() < 0.6))
+        return tuple(cfgs)
+
+    sq = []
+    sq_strings = [''.join(t) for k in range(0, (4 if tier == 'quick' else 5) + 1) for t in itertools.product(ALPHA, repeat=k)]
+    if tier == 'quick':
+        sq_strings = sq_strings[::2]
+    for s in sq_strings:
+        sq.append((s, gen_cfgs(True), rng.choice([None, 1, 2, 3]), rng.choice([None, 2, 4, 12])))
+        if rng.random() < 0.5:
+            sq.append((s, gen_cfgs(False), rng.choice([None, 1, 2, 3]), rng.choice([None, 2, 4, 12])))
+    for _ in range(300 if tier == 'quick' else 3000):
+        s = ''.join(rng.choice(AA + 'KRPDE') for _ in range(rng.randint(0, 40)))
+        sq.append((s, gen_cfgs(rng.random() < 0.6), rng.choice([None, 1, 2, 3, 6]), rng.choice([None, 4, 12, 30])))
+    # the known-finding witness and its neighbours, always
+    sq += [('K', ((('lys-c',), 0, False, True), (('lys-n',), 0, False, True)), None, None),
+           ('KKK', ((('lys-c',), 0, False, True), (('lys-n',), 0, False, True)), None, None),
+           ('XXXKXXXDXXX'.replace('X', 'A'), ((('([KR])',), 0, False, False), (('[DE]',), 0, False, False)), None, None)]
+
+    def sq_line(c):
+        s, cfgs, lo, hi = c
+        w = '|'.join('&'.join(rule_wire(r) for r in rs) + f'@{mc}@{int(semi)}@{int(comp)}' for rs, mc, semi, comp in cfgs)
+        return f'seq\t{s}\t{w}\t{opt(lo)}\t{opt(hi)}'
+
+    def sq_impl(c):
+        s, cfgs, lo, hi = c
+        ec = [digestion.EnzymeConfig(list(rs), mc, semi, comp) for rs, mc, semi, comp in cfgs]
+        return show_spans(digestion.sequential_digest(s, ec, lo, hi, 'span'))
+
+    chk.correspond('sequential_digest', DRV, sq, sq_line, sq_impl, nontrivial_fn=lambda c, im: ';' in im)
 
     # ---------------------------------------------------------------- oracle: implementation vs Lean spec set
     budget = 1 if not chk.broken() else 4
